@@ -71,6 +71,7 @@ func (ctx *Context) Parse(value string) error {
 	}
 
 	p := newParser("", []byte(value), memoized(true))
+	p.recover = true // 解析算力超限(errMaxExprCnt)等解析期panic转为错误返回
 	ctx.parser = p
 	d := p.cur.data
 	// p.debug = true
